@@ -16,7 +16,8 @@ Inductive op :=
 | ClearOutput
 | SetInput (xs : list str)      (* set_input(xs)  (clear=True) *)
 | QueueInput (xs : list str)    (* queue_input(xs...) = set_input(xs, clear=False) *)
-| ClearInput.
+| ClearInput
+| ClearContext.                  (* clear_context(): the history of executions is forgotten (ids restart at 0) *)
 
 Record ctx := mkCtx { c_output : str; c_inputs : list str }.
 
@@ -60,6 +61,7 @@ Definition step (s : st) (o : op) : st :=
   | SetInput xs => mkSt (raw s) (out s) xs (ctxs s)
   | QueueInput xs => mkSt (raw s) (out s) (inputs s ++ xs) (ctxs s)
   | ClearInput => mkSt (raw s) (out s) [] (ctxs s)
+  | ClearContext => mkSt (raw s) (out s) (inputs s) []
   end.
 
 Definition run (ops : list op) : st := fold_left step ops init.
